@@ -41,7 +41,7 @@ results = {}
 try:
     for p in props:
         t0 = time.time()
-        r = sh(['./check', p], cwd='/verif')
+        r = subprocess.run(['./check', p], cwd='/verif', env=dict(env, VERIF_NO_FPGATE='1'), capture_output=True, text=True)
         viol = [l for l in r.stdout.splitlines() if l.startswith('VIOLATION')]
         results[p] = {'exit': r.returncode, 'line': viol[0] if viol else '', 'wall_s': round(time.time() - t0, 1)}
         print(p, r.returncode, viol[0] if viol else r.stdout.strip()[-200:])
